@@ -179,8 +179,11 @@ def run_check(check: Check, tier: str, replay: Optional[str] = None) -> int:
     if replay:
         rp = json.load(open(replay if os.path.isabs(replay) else os.path.join(C.VERIF, replay)))
         cases = [rp["case"]] if "case" in rp else []
+        ncorpus = len(cases)
     else:
-        cases = check.corpus() + check.generate(rng, n, tier)
+        corpus_cases = check.corpus()
+        ncorpus = len(corpus_cases)
+        cases = corpus_cases + check.generate(rng, n, tier)
     impls = pmap(check, _impl_worker, cases)
     for im in impls:
         if "harness_trace" in im and im.get("err", "").startswith("py:") and "harness/" in im["harness_trace"].split("\n")[-3:][0:1].__repr__():
@@ -239,7 +242,7 @@ def run_check(check: Check, tier: str, replay: Optional[str] = None) -> int:
         k = check.judge_sample if tier == "quick" else check.judge_sample * 10
         pool = list(range(len(cases)))
         rng.shuffle(pool)
-        to_judge |= set(pool[:k]) | set(tie_idx)
+        to_judge |= set(pool[:k]) | set(tie_idx) | set(range(min(ncorpus, len(cases))))
     jl = sorted(to_judge)
     verdicts = pmap(check, _judge_worker, [(cases[i], impls[i]) for i in jl])
     violations: List[Tuple[int, dict]] = [(i, v) for i, v in zip(jl, verdicts) if v is not None]
